@@ -98,3 +98,59 @@ def normalize_smt(interp, P, ins):
       nrm[k] = A.var('nrmz!%d!n%d' % (k0, k))
       A.assume.append(nrm[k] >= 0)
   return [out.reshape(x.shape), nrm.reshape(lead)]
+
+
+def uf_handler(tag):
+  """cut with an UNINTERPRETED FUNCTION contract: every output element is F_tag_i(all inputs of that batch element).  Two calls with equal
+  inputs give equal outputs (congruence) -- used by relational (two-run) obligations so that both runs see the same callee."""
+  def h(interp, P, ins):
+    A = interp.alg
+    batch = tuple(P['batch'])
+    lifted = [interp.lift(x) for x in ins]
+    nb = int(np.prod(batch)) if batch else 1
+    outs = []
+    for oi, (sh, dt) in enumerate(zip(P['out_shapes'], P['out_dtypes'])):
+      full = np.empty((nb,) + tuple(sh), dtype=object)
+      for b in range(nb):
+        args, consts = [], []
+        for x in lifted:
+          xb = x.reshape((nb,) + x.shape[len(batch):])[b] if batch else x
+          for e in np.asarray(xb, dtype=object).reshape(-1):
+            if isc(e):
+              consts.append(repr(e))          # concrete inputs select the function (hashed into its name): they need not be finite
+            else:
+              args.append(e)
+        import hashlib
+        hname = hashlib.md5('|'.join(consts).encode()).hexdigest()[:8]
+        for idx in (np.ndindex(*sh) if sh else [()]):
+          if args:
+            full[(b,) + idx] = A.uf('%s#%s!o%d%s' % (tag, hname, oi, ''.join('_%d' % i for i in idx)), *args)
+          else:
+            full[(b,) + idx] = A.var('%s#%s!o%d%s!b%d' % (tag, hname, oi, ''.join('_%d' % i for i in idx), b))
+      outs.append(full.reshape(batch + tuple(sh)))
+    return outs
+  return h
+
+
+def normalize_smt_nontiny(interp, P, ins):
+  """VERIFIED (C09/normalize/contract_nontiny): for a NON-TINY input, (n, norm) satisfy norm >= 0, norm^2 = x.x, n*norm = x.
+  The caller must prove the side condition x.x > 4e-16 (=> some |x_i| > 1e-8); the radicands are appended to interp.nontiny_side."""
+  A = interp.alg
+  x = interp.lift(ins[0])
+  rows, lead = _rows(x, 1)
+  out = np.empty(rows.shape, dtype=object)
+  nrm = np.empty((rows.shape[0],), dtype=object)
+  k0 = len(interp.calls)
+  if not hasattr(interp, 'nontiny_side'):
+    interp.nontiny_side = []
+  for k, row in enumerate(rows):
+    xx = 0
+    for e in row:
+      xx = A.add(xx, A.mul(e, e))
+    nrm[k] = A.var('nrmz!%d!n%d' % (k0, k))
+    A.assume += [nrm[k] >= 0, nrm[k] * nrm[k] == xx]
+    for j in range(len(row)):
+      out[k, j] = A.var('nrmz!%d!%d_%d' % (k0, k, j))
+      A.assume.append(out[k, j] * nrm[k] == row[j])
+    interp.nontiny_side.append(xx)
+  return [out.reshape(x.shape), nrm.reshape(lead)]
